@@ -153,9 +153,47 @@ def r192(db, ctx, F):
                     elif d and d[0] == 'call' and d[1] in ('alloc::vec::Vec::new', 'alloc::vec::Vec::with_capacity') and r == ('k', 0):
                         writers += 1
                         ctx.ok('R19.2', f, 'DenseMatrix { empty Vec, rows: 0 }', ['Vec::new/with_capacity has length 0'])
+                    elif d and d[0] == 'v' and local_vec_len(f, R2, d[1], stt, blk) is not None and local_vec_len(f, R2, d[1], stt, blk)[0] == r:
+                        # let mut data = Vec::new(); data.resize_with(n, Default::default) | data.set_len(n); Self { data, rows: n }
+                        how = local_vec_len(f, R2, d[1], stt, blk)[1]
+                        writers += 1
+                        ctx.ok('R19.2', f, f'DenseMatrix {{ data, rows: {X.show(r)} }} with data.len() == {X.show(r)}', [how])
                     else:
                         ctx.fail('R19.2', f, 'DenseMatrix aggregate', f'constructed with data={X.show(d) if d else None}, rows={X.show(r) if r else None}: cannot show rows == data.len()', span=stt.get('span'))
     ctx.floor('R19.2', writers, 4, 'writers of the row vector length / row count')
+
+
+def local_vec_len(f, R, l, agg_stmt, agg_blk):
+    """Length of the local Vec `l` when it is moved into the aggregate: it was created empty (Vec::new / with_capacity) and its length was
+    changed by exactly one call that dominates the aggregate: resize_with(n, Default::default) or set_len(n).  Returns (n, how) or None."""
+    ds = f.defs().get(l, [])
+    if len(ds) != 1 or ds[0][1] != 'term':
+        return None
+    e = norm(R.call(ds[0][2]))
+    if not (e[0] == 'call' and e[1] in ('alloc::vec::Vec::new', 'alloc::vec::Vec::with_capacity')):
+        return None
+    ab = f.blocks.index(agg_blk)
+    changers = []
+    for bi, t in f.calls():
+        c = f.callee_short(t) or ''
+        if c.startswith('alloc::vec::Vec::') and t['args']:
+            a0 = t['args'][0]
+            pl = a0.get('m') or a0.get('c')
+            recv = norm(R.operand(a0))
+            # receiver is &mut l (possibly through a temporary reference)
+            is_l = recv == ('v', l) or (pl is not None and any(x == ('v', l) for x in X.walk(recv)))
+            if is_l and c.rsplit('::', 1)[-1] in LEN_CHANGERS:
+                changers.append((bi, t, c.rsplit('::', 1)[-1]))
+    if len(changers) != 1:
+        return None
+    bi, t, meth = changers[0]
+    if not f.dominates(bi, ab) or meth not in ('resize_with', 'set_len'):
+        return None
+    if meth == 'resize_with':
+        a2 = R.operand(t['args'][2])
+        if not (a2[0] == 'fnitem' and a2[1].endswith('Default::default')):
+            return None
+    return norm(R.operand(t['args'][1])), f'Vec::new/with_capacity (len 0) then {meth}(n) dominating the construction; no other length change'
 
 
 def is_dm(f, R, base):
@@ -311,7 +349,14 @@ def r195(db, ctx, F):
         if bl and bd and bs and bl['$it'] == bd['$it2'] == bs['$it3']:
             ok = True
         else:
-            why = f'len={X.show(ln)} dst={X.show(dst)} src={X.show(src)}'
+            # explicit counter form: let mut i = 0; for row in it { dense[i].copy_from_slice(row.as_ref()); i += 1; }
+            bd2 = m(('call~', 'index_mut', ('$m', '$i')), dst)
+            if bl and bd2 is not None and src[0] == 'elem' and norm(src[1]) == norm(bl['$it']):
+                H = common.loop_counter_of(f, R, bd2['$i'])
+                if H is not None and H == common.loop_of_elem(f, src):
+                    ok = True
+            if not ok:
+                why = f'len={X.show(ln)} dst={X.show(dst)} src={X.show(src)}'
     if ok:
         n += 1
         ctx.ok('R19.5', f, 'from_rows: uninitialized(it.len()); every row i of enumerate(it) overwritten by copy_from_slice',
